@@ -223,8 +223,11 @@ class Recorder:
         self.seam = seam
         self.ev = []
         self.raise_on = set(raise_on)
+        import asyncio
+
         self.exc = {"ValueError": ValueError, "KeyError": KeyError, "RuntimeError": RuntimeError, "AssertionError": AssertionError,
-                    "ZeroDivisionError": ZeroDivisionError}[exc]
+                    "ZeroDivisionError": ZeroDivisionError, "SystemExit": SystemExit, "GeneratorExit": GeneratorExit,
+                    "CancelledError": asyncio.CancelledError}[exc]
         self.raised = 0
 
     def _ev(self, kind, *a):
@@ -344,6 +347,15 @@ class Receiver:
             return ("V", x.as_bits().to01())
         return ({"Rate12Data": "R12", "Rate34Data": "R34", "Rate1Data": "R1"}.get(n, n), x.data.hex())
 
+    @staticmethod
+    def full_key(x):
+        n = type(x).__name__
+        try:
+            bits = x.as_bits().to01()
+        except Exception as e:
+            bits = "as_bits raised " + type(e).__name__
+        return (n, getattr(getattr(x, "packet_type", None), "name", None), x.data.hex() if isinstance(getattr(x, "data", None), (bytes, bytearray)) else None, bits)
+
     def feed(self, term, ts, data, bt, op_i):
         """deliver one burst; returns dict describing what happened, or None if unparseable"""
         b = self.parse(data, bt)
@@ -367,7 +379,7 @@ class Receiver:
                 out = self.watcher.process_burst(b)
         except Watchdog.Timeout:
             raised = "timeout"
-        except Exception as e:
+        except BaseException as e:  # observers may raise BaseException subclasses (SystemExit, CancelledError): they must not escape either
             tb = e.__traceback__
             while tb.tb_next is not None:
                 tb = tb.tb_next
